@@ -325,10 +325,87 @@ func c18Run(c *ev.Ctx) {
 			}
 		}
 	}
+	c18Reuse(c)
 	c.Add("transitions", transitions)
 	c.Add("states", states)
 	c.Max("depth_completed", int64(depth))
 	c.Flag("exhaustive", true)
+}
+
+// c18Reuse: a CompressingReader reused through Reset — after a stream read to its end, after a
+// stream abandoned with bytes still pending in its overflow buffer, and after a source failure —
+// must yield, for the next source, exactly the stream a new CompressingReader yields.
+func c18Reuse(c *ev.Ctx) {
+	n := 0
+	for _, o := range crOptionSets() {
+		for _, in1 := range []inputSpec{{100, "lcg"}, {65537, "lcg"}, {0, "zeros"}} {
+			for _, in2 := range []inputSpec{{1, "zeros"}, {65536, "p7"}, {70000, "lcg"}} {
+				for _, how := range []string{"eof", "abandon-pending", "abandon-fresh", "source-error"} {
+					for _, first := range []int{1, 5, 7, 8, 100} {
+						n++
+						if !c.Mine(int64(n)) {
+							continue
+						}
+						a, b := in1.build(), in2.build()
+						fresh := runCR(c18Case{Opts: o, In: in2, Frag: 4, Drain: 4096}, b, true)
+						if fresh.sig != "" {
+							continue
+						}
+						var got []byte
+						sig, what := "", ""
+						func() {
+							defer func() {
+								if p := recover(); p != nil {
+									sig, what = "reused compressing reader panics", fmt.Sprint(p)
+								}
+							}()
+							src1 := &fragSource{data: a, pat: fragPatterns()[4]}
+							if how == "source-error" {
+								src1.failAt = 1
+							}
+							zr := lz4.NewCompressingReader(nopCloser{src1})
+							zr.Apply(o.crOptions(len(a))...)
+							buf := make([]byte, first)
+							switch how {
+							case "eof":
+								io.Copy(io.Discard, zr)
+							case "abandon-pending", "source-error":
+								zr.Read(buf) // a short read leaves the rest of the step in the overflow buffer
+							case "abandon-fresh":
+							}
+							zr.Reset(nopCloser{&fragSource{data: b, pat: fragPatterns()[4]}})
+							if err := zr.Apply(o.crOptions(len(b))...); err != nil {
+								sig, what = "reused compressing reader: Apply fails after Reset", err.Error()
+								return
+							}
+							big := make([]byte, 4096)
+							for i := 0; i < 1<<16; i++ {
+								k, err := zr.Read(big)
+								got = append(got, big[:k]...)
+								if err == io.EOF {
+									return
+								}
+								if err != nil {
+									sig, what = "reused compressing reader: Read fails after Reset ("+how+")", err.Error()
+									return
+								}
+							}
+							sig = "reused compressing reader: stream never ends"
+						}()
+						c.Eval(1)
+						c.Distinct(1)
+						c.Add("reuse_runs", 1)
+						if sig == "" && !bytes.Equal(got, fresh.stream) {
+							sig, what = "a compressing reader reused through Reset yields another stream than a new one ("+how+")", describeDiff(got, fresh.stream)
+						}
+						if sig != "" {
+							c.Report(&ev.Finding{Sig: sig, What: fmt.Sprintf("%s; %s first=%+v second=%+v first read %d", what, o, in1, in2, first), Case: c18Case{Opts: o, In: in2}})
+						}
+					}
+				}
+			}
+		}
+	}
 }
 
 // c09CompressingReader feeds the compressing reader's streams to the C09 conformance oracle.
